@@ -603,8 +603,11 @@ Inputs(st) ==
     \cup On("addrcb", {x \in {[a |-> "addrcb", k |-> k, cb |-> cb] : k \in {"K1", "S1"}, cb \in {1, 2}} :
                           [k |-> x.k, cb |-> x.cb] \notin st.rcbs})
     \cup On("cbrecv", {x \in {[a |-> "recv", p |-> p, cls |-> cls, c |-> c, s |-> sd, pl |-> pl, v |-> v, ack |-> FALSE, ref |-> h] :
-                                p \in DiscP(st), cls \in {"reply", "result"}, c \in {"s14", "c11"}, sd \in {"K1", "S1"},
-                                pl \in {"limit", "kv", "res0", "res1"}, v \in Vals, h \in 0..st.nid} :
+                                p \in DiscP(st), cls \in {"reply", "result"},
+                                c \in (IF "cbrecv" \in Tiny THEN {"s14"} ELSE {"s14", "c11"}),
+                                sd \in (IF "cbrecv" \in Tiny THEN {"K1"} ELSE {"K1", "S1"}),
+                                pl \in (IF "cbrecv" \in Tiny THEN {"limit", "kv", "res1"} ELSE {"limit", "kv", "res0", "res1"}),
+                                v \in Vals, h \in 0..st.nid} :
                           (x.cls = "result") = (x.pl \in ResultPls)})
     \* C20: use cases over 2 entities x 2 actors x 2 names (re-adding an existing name, removing unknown ones included)
     \cup On("adduc",  {[a |-> "adduc", e |-> e, actor |-> ac, name |-> n, ver |-> v, av |-> av, sc |-> sc] :
